@@ -4,6 +4,8 @@ package namer
 
 import (
 	"go/token"
+	"go/types"
+	"strings"
 
 	gengotypes "github.com/octohelm/gengo/pkg/types"
 )
@@ -30,9 +32,42 @@ func spec_inv(t *defaultImportTracker) bool {
 
 //@ func ImportTracker.Imports
 //@   pure
-//@ func ImportTracker.LocalNameOf
+//@   stateful
+//@   note interface namer.ImportTracker (implemented by *defaultImportTracker): Imports() is THE observer of a tracker's abstract state (ghost heap field abs); the other methods are specified in terms of it by the trusted wrappers below
+
+// Interface contract of namer.ImportTracker, ASSUMED for every implementation (third-party trackers included) and
+// checked for *defaultImportTracker by the lemma_tracker* functions below.
+func iface_ImportTracker_LocalNameOf(self ImportTracker, packagePath string) string {
+	return self.LocalNameOf(packagePath)
+}
+
+//@ func iface_ImportTracker_LocalNameOf
+//@   trusted
 //@   pure
-//@   note interface namer.ImportTracker (implemented by *defaultImportTracker): observers
+//@   requires self != nil
+//@   ensures result == self.Imports()[packagePath]
+
+func iface_ImportTracker_AddType(self ImportTracker, o gengotypes.TypeName) { self.AddType(o) }
+
+//@ func iface_ImportTracker_AddType
+//@   trusted
+//@   requires self != nil && o != nil && o.Pkg() != nil
+//@   assigns abs(self)
+//@   ensures has(self.Imports(), o.Pkg().Path()) && spec_validName(self.Imports()[o.Pkg().Path()])
+//@   ensures forall p string :: p != o.Pkg().Path() ==> has(self.Imports(), p) == old(has(self.Imports(), p)) && self.Imports()[p] == old(self.Imports()[p])
+//@   ensures old(has(self.Imports(), o.Pkg().Path())) ==> self.Imports()[o.Pkg().Path()] == old(self.Imports()[o.Pkg().Path()])
+//@   note registering a package binds it to a valid name, never renames a package that is already bound (asking twice yields the same name) and touches nothing but the tracker's own state
+
+func lemma_trackerAddType(t *defaultImportTracker, o gengotypes.TypeName) { t.AddType(o) }
+
+//@ func lemma_trackerAddType
+//@   props C03
+//@   requires spec_inv(t) && std != nil && o != nil && o.Pkg() != nil
+//@   assigns t.pathToName, t.nameToPath
+//@   ensures has(t.Imports(), o.Pkg().Path()) && spec_validName(t.Imports()[o.Pkg().Path()]) && t.LocalNameOf(o.Pkg().Path()) == t.Imports()[o.Pkg().Path()]
+//@   ensures forall p string :: p != o.Pkg().Path() ==> has(t.Imports(), p) == old(has(t.Imports(), p)) && t.Imports()[p] == old(t.Imports()[p])
+//@   ensures old(has(t.Imports(), o.Pkg().Path())) ==> t.Imports()[o.Pkg().Path()] == old(t.Imports()[o.Pkg().Path()])
+//@   note *defaultImportTracker satisfies the interface contract iface_ImportTracker_AddType / _LocalNameOf (given its representation invariant)
 
 //@ func NewDefaultImportTracker
 //@   props C03 C05
@@ -95,6 +130,66 @@ func spec_isRawNamer(n Namer) bool { _, ok := n.(*rawNamer); return ok }
 //@   pure
 //@   requires tracker != nil
 //@   ensures eq(result, tracker.pathToName)
+
+// ---- rawNamer.Name: qualified references use the bound name, own-package references are unqualified (C03) ----
+
+// spec_tparams(p, n): the first n type parameters of p, comma separated (as Name prints them).
+func spec_tparams(p *types.TypeParamList, n int) string {
+	if n <= 0 {
+		return ""
+	}
+	if n == 1 {
+		return p.At(0).String()
+	}
+	return spec_tparams(p, n-1) + "," + p.At(n-1).String()
+}
+
+// spec_tparamText(tn): "[P1,P2]" for a *types.TypeName of a generic named type, "" otherwise.
+func spec_tparamText(tn gengotypes.TypeName) string {
+	x, ok := tn.(*types.TypeName)
+	if !ok {
+		return ""
+	}
+	named, ok := x.Type().(*types.Named)
+	if !ok || named.TypeParams() == nil {
+		return ""
+	}
+	return "[" + spec_tparams(named.TypeParams(), named.TypeParams().Len()) + "]"
+}
+
+// spec_plain(name): the name carries no bracketed type-argument list (the case every non-instantiated reference is in).
+func spec_plain(name string) bool { return strings.Index(name, "[") <= 0 }
+
+// spec_bare(name): what processName returns for a plain name: the text after the last '.', or the whole name.
+func spec_bare(name string) string { return gengotypes.Spec_bare(name) }
+
+//@ func rawNamer.processName
+//@   props C03 C15
+//@   requires n != nil && n.tracker != nil
+//@   assigns abs(n.tracker)
+//@   ensures spec_plain(name) ==> result == spec_bare(name) && eq(n.tracker.Imports(), old(n.tracker.Imports()))
+//@   ensures forall p string :: old(has(n.tracker.Imports(), p)) ==> has(n.tracker.Imports(), p) && n.tracker.Imports()[p] == old(n.tracker.Imports()[p])
+//@   ensures forall p string :: has(n.tracker.Imports(), p) && !old(has(n.tracker.Imports(), p)) ==> p != n.pkgPath && p != ""
+//@   panics true
+//@   loop 1 assume forall i int :: 0 <= i && i < len(ys1) ==> ys1[i] != nil
+//@   note (loop 1 assume) TypeRef trees built by ParseTypeRef contain no nil node
+//@   loop 1 invariant n.tracker == old(n.tracker) && n.pkgPath == old(n.pkgPath)
+//@   loop 1 invariant forall p string :: old(has(n.tracker.Imports(), p)) ==> has(n.tracker.Imports(), p) && n.tracker.Imports()[p] == old(n.tracker.Imports()[p])
+//@   loop 1 invariant forall p string :: has(n.tracker.Imports(), p) && !old(has(n.tracker.Imports(), p)) ==> p != n.pkgPath && p != ""
+//@   note a plain name registers nothing and comes back bare; for an instantiated name (brackets) every package it registers is a FOREIGN, non-empty nested package path - the file's own package is never imported - and no bound name changes. That exactly the nested paths are registered and the text is otherwise unchanged is only checked by the bounded probe (the TypeRef tree is a recursive heap structure). The code panics if ParseTypeRef rejects the name.
+
+//@ func rawNamer.Name
+//@   props C03
+//@   requires n != nil && n.tracker != nil && typeName != nil && typeName.Pkg() != nil && spec_plain(typeName.Name())
+//@   requires !has(n.Names, typeName)
+//@   assigns n.Names, abs(n.tracker)
+//@   ensures typeName.Pkg().Path() == n.pkgPath ==> eq(n.tracker.Imports(), old(n.tracker.Imports()))
+//@   ensures typeName.Pkg().Path() == n.pkgPath && spec_bare(typeName.Name())+spec_tparamText(typeName) != "" ==> result == spec_bare(typeName.Name())+spec_tparamText(typeName)
+//@   ensures typeName.Pkg().Path() != n.pkgPath ==> has(n.tracker.Imports(), typeName.Pkg().Path()) && result == n.tracker.Imports()[typeName.Pkg().Path()]+"."+spec_bare(typeName.Name())+spec_tparamText(typeName)
+//@   ensures forall p string :: old(has(n.tracker.Imports(), p)) ==> has(n.tracker.Imports(), p) && n.tracker.Imports()[p] == old(n.tracker.Imports()[p])
+//@   ensures forall p string :: has(n.tracker.Imports(), p) && !old(has(n.tracker.Imports(), p)) ==> p == typeName.Pkg().Path()
+//@   loop 1 invariant 0 <= i && i <= p.Len() && p != nil && spec_written(tn) == spec_bare(typeName.Name()) + "[" + spec_tparams(p, i)
+//@   note a reference to the file's own package is unqualified and registers nothing; a foreign reference is qualified with exactly the name the tracker binds to its package, registers exactly that package and renames no other
 
 //@ func golangTrackerLocalName
 //@   props C03
